@@ -896,6 +896,13 @@ func (s *runtimeState) loadAuth(compiled config.Compiled) error {
 		workerByRoute[rt.Path] = workerapi.BearerTokenAuthorizer(routeTokens)
 	}
 
+	// Authenticators are rebuilt on every reload; the nonces they have already
+	// honoured must survive it, or a captured request could be replayed after
+	// any reload.
+	s.mu.RLock()
+	prevHMACByRoute := s.hmacByRoute
+	s.mu.RUnlock()
+
 	hmacByRoute := make(map[string]*ingress.HMACAuth, len(compiled.Routes))
 	basicByRoute := make(map[string]*ingress.BasicAuth, len(compiled.Routes))
 	forwardByRoute := make(map[string]*ingress.ForwardAuth, len(compiled.Routes))
@@ -949,6 +956,7 @@ func (s *runtimeState) loadAuth(compiled config.Compiled) error {
 		}
 
 		auth := ingress.NewHMACAuth(secs)
+		auth.InheritReplayState(prevHMACByRoute[rt.Path])
 		if strings.TrimSpace(rt.AuthHMACSignatureHeader) != "" {
 			auth.SignatureHeader = rt.AuthHMACSignatureHeader
 		}
